@@ -100,7 +100,7 @@ func runBounded(repo, verif, prop, tier string) ([]BoundedResult, []string) {
 				}
 			}
 		}
-		if err != nil && len(results) == 0 {
+		if err != nil && len(results) == 0 && !(strings.Contains(out.String(), "=== RUN") && (strings.Contains(out.String(), "fatal error:") || strings.Contains(out.String(), "panic:"))) {
 			txt := out.String()
 			if len(txt) > 1500 {
 				txt = txt[len(txt)-1500:]
